@@ -183,7 +183,8 @@ where
 /// share mutable state (which the exhaustive part, run on a 1-thread pool, cannot see) show up here
 /// with high probability.
 fn free_running(run: &Run) {
-    for (chunks, calls) in [(9usize, 3usize), (64, 1), (257, 1), (33, 7)] {
+    // the last two shapes are LARGE jobs (> 2^14 field elements of wire polynomials): size-dependent code paths
+    for (chunks, calls) in [(9usize, 3usize), (64, 1), (257, 1), (33, 7), (5000, 1), (1200, 7)] {
         let p = (1 + calls).next_power_of_two();
         let mut st = run.seed ^ 0xF5EE ^ chunks as u64;
         let inp: Vec<Vec<Field128>> = (0..2 * chunks).map(|_| wire_poly(p, &mut st, 0)).collect();
@@ -193,7 +194,7 @@ fn free_running(run: &Run) {
         serial.eval_poly(&mut want, &inp).unwrap();
         for threads in [2usize, 3, 4, 8, 16] {
             let pool = rayon::ThreadPoolBuilder::new().num_threads(threads).build().unwrap();
-            for _ in 0..run.pick(150, 3000) {
+            for _ in 0..if chunks >= 1000 { run.pick(40, 400) } else { run.pick(150, 3000) } {
                 let mut out = vec![Field128::from(7u128); 2 * p];
                 let r = catch(|| pool.install(|| multi.eval_poly(&mut out, &inp)));
                 run.count("free_running_samples", 1);
@@ -277,6 +278,10 @@ fn main() {
                 }
             }
         }
+    }
+    // a LARGE job (> 2^14 field elements): size-dependent code paths, at most one steal (thorough: two)
+    for &n in &[2usize, 16] {
+        gadget_case(&run, &pool, 5000, 1, n, max_exec, if q { 1 } else { 2 });
     }
     run.note("deviation_bounded_cases", json!({"chunks": [33, 64, 65, 100, 129, 257], "max_steals": big_bound}));
     eprintln!("[{:.1}s] gadget", run.elapsed());
